@@ -57,8 +57,8 @@ PointLoadValues(r) ==
   \A p \in Pts(r) : \A k \in 1..r.fd :
      LET idx == {n \in 1..Len(r.pts) : r.pts[n] = p}
          want == IF idx = {} THEN 0
-                 ELSE LET n == CHOOSE n \in idx : TRUE  v == r.vals[(n - 1) * r.fd + k] IN
-                      IF r.axi THEN (v * r.r8[n] * TwoPiS) \div 8 ELSE v * 1048576
+                 ELSE LET n == CHOOSE n \in idx : TRUE  v2 == r.vals2[(n - 1) * r.fd + k] IN         \* twice the value (half-integers)
+                      IF r.axi THEN (v2 * r.r8[n] * (TwoPiS \div 2)) \div 8 ELSE v2 * 524288
      IN Abs(F(r, p, k) - want) <= (IF r.axi THEN 16 ELSE 0)
 \* no force along a skipped axis of a multi-point item
 SkippedAxesFree(r) == \A k \in ToSet(r.skipped) : \A p \in Pts(r) : F(r, p, k) = 0
